@@ -266,7 +266,11 @@ def apply_contract(ev, q, c, vals, nodes, st, node, callee_mod, tag=None):
     facts = []
     rsh = c.get("returns")
     res = NoneV()
-    if rsh:
+    if c.get("returns_expr"):
+        # summary contracts may *define* the result (e.g. as an uninterpreted function of the argument contents):
+        # the value is that term itself, so that later uses are syntactically transparent
+        res = sev.spec_val(c["returns_expr"], s2)
+    elif rsh:
         sh = parse_shape(rsh)
         ctx._declare_enums(sh)
         res = fresh(sh, q.split(".")[-1] + ".res", facts, "list" if c.get("returns_list") else "array")
@@ -274,7 +278,7 @@ def apply_contract(ev, q, c, vals, nodes, st, node, callee_mod, tag=None):
     old_env = dict(env)
     for p in c.get("modifies", []):
         old = env[p]
-        post_env[p] = fresh(shape_of(old), p + "'", facts, old.kind if isinstance(old, Seq) else "array")
+        post_env[p] = fresh(shape_of(old), p + "_post", facts, old.kind if isinstance(old, Seq) else "array")
     post_env["result"] = res
     st.pc.extend(facts)
     s3 = State(post_env, st.pc)
@@ -895,12 +899,39 @@ def mask_store(ev, base, mask, v, st, node):
     raise Unsupported("boolean-mask store")
 
 
+def _dict_key(k):
+    if isinstance(k, core.StrV):
+        return ("str", k.s)
+    if isinstance(k, Tup) and len(k.items) == 2:
+        a, b = as_num(k.items[0]), as_num(k.items[1])
+        if a.is_int and b.is_int:
+            return ("pair", a.t, b.t)
+    raise Unsupported("dict key %r" % (k,))
+
+
+def dict_has(d, k):
+    key = _dict_key(k)
+    if key[0] == "str":
+        return d.strkey(key[1])[0]
+    return d.has(key[1], key[2])
+
+
 def dict_get(ev, d, k, st, node):
-    raise Unsupported("dict get")
+    key = _dict_key(k)
+    ev.need("dict key present", st, dict_has(d, k), node)
+    if key[0] == "str":
+        return Num(d.strkey(key[1])[1])
+    return Num(d.get(key[1], key[2]))
 
 
 def dict_set(ev, d, k, v, st, node):
-    raise Unsupported("dict set")
+    key = _dict_key(k)
+    val = as_num(v).real()
+    if key[0] == "str":
+        extra = dict(d.extra)
+        extra[key[1]] = (z3.BoolVal(True), val)
+        return DictV(d.dom, d.val, extra, d.root, d.base)
+    return d.set(key[1], key[2], val)
 
 
 def dict_del(ev, d, k, st, node):
